@@ -143,13 +143,40 @@ def audit(prop, module, theorems):
     return ok, per, out[-3000:]
 
 
-def run_impl(casefile, timeout=3600):
+def run_impl(casefile, timeout=3600, idle=25):
+    """run the harness; a watchdog kills it when no answer arrives for `idle` seconds (an operation
+    that does not terminate) — the answers so far are returned with rc = -99"""
+    import threading
     t0 = time.time()
     env = dict(os.environ, RUST_BACKTRACE="0")
     env.pop("VIRTUAL_ENV", None)
-    p = subprocess.run([PLSV_BIN, "run", casefile], stdout=subprocess.PIPE, stderr=subprocess.PIPE,
-                       timeout=timeout, env=env)
-    return p.returncode, p.stdout.decode("utf-8", "replace"), time.time() - t0
+    p = subprocess.Popen([PLSV_BIN, "run", casefile], stdout=subprocess.PIPE, stderr=subprocess.DEVNULL, env=env)
+    chunks = []
+    last = [time.time()]
+    def reader():
+        while True:
+            b = p.stdout.read1(1 << 16)
+            if not b:
+                break
+            chunks.append(b)
+            last[0] = time.time()
+    th = threading.Thread(target=reader, daemon=True)
+    th.start()
+    hung = False
+    while True:
+        try:
+            p.wait(timeout=1)
+            break
+        except subprocess.TimeoutExpired:
+            now = time.time()
+            if now - last[0] > idle or now - t0 > timeout:
+                hung = True
+                p.kill()
+                p.wait()
+                break
+    th.join(timeout=5)
+    out = b"".join(chunks).decode("utf-8", "replace")
+    return (-99 if hung else p.returncode), out, time.time() - t0
 
 
 def run_model(casefile, timeout=3600):
@@ -182,13 +209,15 @@ def parse_answers(out):
 
 
 def strip_order(a):
-    if a and a.startswith("ok order="):
+    if a and (a.startswith("ok order=") or a.startswith("ok parsed=")):
         return "ok"
     return a
 
 
 def agree(impl, model):
     impl = strip_order(impl)
+    if impl and impl.startswith("PANIC") and model == "PANIC":
+        return True
     if model.startswith("ANYOF "):
         alts = [a.strip() for a in model[6:].split(" || ")]
         return impl.strip() in alts
@@ -205,6 +234,7 @@ class Cases:
         self.idx = 0
         self.meta = {}         # case -> arbitrary dict
         self.pos = {}          # (case, idx) -> index into buf of that op/q line
+        self.ast_valid = {}    # (case, tid) -> did CPython accept the text
 
     def case(self, name, meta=None):
         self.cur = name
@@ -225,8 +255,11 @@ class Cases:
         if with_ast:
             try:
                 t = data.decode("utf-8")
-                self._emit(f"ast {tid} {to_sexp(t)}")
+                sx = to_sexp(t)
+                self.ast_valid[(self.cur, tid)] = (sx != "invalid")
+                self._emit(f"ast {tid} {sx}")
             except UnicodeDecodeError:
+                self.ast_valid[(self.cur, tid)] = False
                 self._emit(f"ast {tid} invalid")
 
     def raw(self, line):
